@@ -4,5 +4,6 @@ CONSTANTS Depth = 4
   Spacings = {1, 32, 33}
   Scripts = {"none", "co32", "rmh", "err", "fdh"}
   MaxSched = 2
+  Sim = FALSE
 INVARIANT Emit
 CHECK_DEADLOCK FALSE
